@@ -273,3 +273,354 @@ def inst_freq_shift():
 
 
 CONTRACTS.append(Contract("pulsarbat.transforms.transforms.freq_shift", spec_freq_shift, inst_freq_shift(), props={"C04": None, "C09": None}))
+
+
+# --------------------------------------------------------------------------- snippet (C12, C01)
+
+def spec_snippet(c, z, t, n):
+    """C12: n samples starting exactly at t (count / duration / absolute Time): whole-sample t is
+    the plain slice z[t:t+n]; otherwise the band-limited shift by the fractional offset; any
+    request outside [0, len] or a Time without start time raises ValueError."""
+    ctx = c.ctx
+    g = c.view(z)
+    if not V.is_intlike(n) and not isinstance(n, bool):
+        raise PyExc("TypeError", "n must be an integer")
+    c.raise_if(V.lt(n, 0), "ValueError", "n must be non-negative")
+    if isinstance(t, STime):
+        if g.t0 is None:
+            raise PyExc("ValueError", "t is a Time but the signal has no start time")
+        ts = V.mul(V.sub(t.sec, g.t0.sec), g.sr.val)
+    elif isinstance(t, Qty):
+        if t.dim != TIME_DIM:
+            raise PyExc("UnitConversionError", "t must have units of time")
+        ts = V.mul(t.val, g.sr.val)
+    else:
+        ts = t
+    raise_any(c, [(V.lt(ts, 0), "ValueError"), (V.lt(g.N, V.add(ts, n)), "ValueError")])
+    i = V.floor_real(ctx, ts) if not V.is_intlike(ts) else ts
+    if not c.branch(V.lt(i, ts), "fractional start"):
+        sl = SSlice(i, V.add(i, n), None)
+        attrs = g.attrs()
+        if g.t0 is not None:
+            attrs["start_time"] = time_plus(c, g.t0, V.div(ctx, i, g.sr.val))
+        return construct(c, g.cls, A.getitem(ctx, g.data, sl), attrs)
+    B = spec_time_shift(c, z, V.sub(i, ts), True)
+    if isinstance(B, Obj):       # |i - ts| <= 1e-8: time_shift returns the signal itself
+        Bdata = g.data
+    else:
+        Bdata = B.data
+    attrs = g.attrs()
+    if g.t0 is not None:
+        attrs["start_time"] = time_plus(c, g.t0, V.div(ctx, ts, g.sr.val))
+    return construct(c, g.cls, A.getitem(ctx, Bdata, SSlice(i, V.add(i, n), None)), attrs)
+
+
+def snippet_theorems(c, result, z, t, n):
+    ctx = c.ctx
+    g = c.view(z)
+    if not isinstance(result, Obj):
+        return
+    r = c.view(result)
+    ctx.oblige("thm.C12.length-is-n", V.eq(r.N, n), "post")
+    if g.t0 is not None and r.t0 is not None:
+        if isinstance(t, STime):
+            want = t.sec
+        elif isinstance(t, Qty):
+            want = V.add(g.t0.sec, t.val)
+        else:
+            want = V.add(g.t0.sec, V.div(ctx, t, g.sr.val))
+        ctx.oblige("thm.C12.start-is-t", V.eq(r.t0.sec, want), "post")
+    else:
+        ctx.oblige("thm.C12.no-start-acquired", (g.t0 is None) == (r.t0 is None), "post")
+
+
+def inst_snippet():
+    out = []
+    for cls, extra, dims in (("Signal", 0, {}), ("BasebandSignal", 0, {1: 2}), ("DualPolarizationSignal", 0, {1: 2})):
+        for has_t0 in (True, False):
+            for tform in ("int", "float", "quantity", "time"):
+                def build(interp, ctx, nm, cls=cls, extra=extra, dims=dims, has_t0=has_t0, tform=tform):
+                    z = mk_signal(interp, ctx, "z", cls, extra_rank=extra, dims=dims, has_t0=has_t0, min_len=1, nm=nm)
+                    U = interp.stubs.units
+                    n = nm.int("n")
+                    sr = z.ghost["sr"].val
+                    if tform == "int":
+                        t = nm.int("t_i")
+                    elif tform == "float":
+                        t = nm.real("t_s")
+                    elif tform == "quantity":
+                        t = Qty(V.div(ctx, nm.real("t_s"), sr), TIME_DIM, U["s"])
+                    else:
+                        t = STime(V.add(z.ghost["t0"].sec if has_t0 else 0, V.div(ctx, nm.real("t_s"), sr)))
+                    return (z, t, n), {}
+                out.append(Instance(f"{cls},t0={int(has_t0)},t={tform}", build))
+    return out
+
+
+_sn = Contract("pulsarbat.transforms.transforms.snippet", spec_snippet, inst_snippet(), props={"C12": None, "C01": TIME_PARTS})
+_sn.theorems = snippet_theorems
+CONTRACTS.append(_sn)
+
+
+# --------------------------------------------------------------------------- concatenate (C10)
+ISCLOSE_RTOL = Fraction(1, 10 ** 5)
+REJECT = ("ValueError", "TypeError")
+
+
+def _absv(x):
+    return V.Ite(V.le(0, x), x, V.neg(x))
+
+
+def u_isclose(a, b):
+    """astropy.units.isclose default: |a - b| <= 1e-5 * |b|."""
+    return V.le(_absv(V.sub(a, b)), V.mul(ISCLOSE_RTOL, _absv(b)))
+
+
+def spec_concatenate(c, signals, axis=0):
+    """C10: joins contiguous pieces (time: each started piece starts where the previous samples
+    end, within Time resolution; frequency: adjacent labels one chan_bw apart; other axes: equal
+    start and labels); anything else is rejected with an error.  Result: concatenated data,
+    start of the first sample (None if no piece has one), attributes of piece 0, labels of the
+    joined band."""
+    ctx = c.ctx
+    if not isinstance(signals, (list, tuple)):
+        raise PyExc(REJECT, "sequence expected")
+    if len(signals) == 0:
+        raise PyExc("ValueError", "need at least one signal")
+    if not all(isinstance(s, Obj) and s.cls.is_subclass(clsinfo(c, "Signal")) for s in signals):
+        raise PyExc(REJECT, "signals must be Signal objects")
+    cls = signals[0].cls
+    if not all(s.cls is cls for s in signals):
+        raise PyExc("TypeError", "all signals must have the same type")
+    gs = [c.view(s) for s in signals]
+    g0 = gs[0]
+    radio = g0.is_a("RadioSignal")
+    time_axis = (axis == 0 and not isinstance(axis, bool)) or axis == "time"
+    freq_axis = radio and ((axis == 1 and not isinstance(axis, bool)) or axis == "freq")
+    if axis == "freq" and not radio:
+        raise PyExc(REJECT, "frequency axis needs radio signals")
+    for g in gs:
+        c.raise_if(V.Not(u_isclose(g0.sr.val, g.sr.val)), REJECT, "sample rates differ")
+    ref = None
+    if time_axis:
+        n = 0
+        for g in gs:
+            if g.t0 is not None:
+                if ref is None:
+                    ref = V.sub(g.t0.sec, V.div(ctx, n, g0.sr.val))
+                else:
+                    gap = V.sub(V.add(ref, V.div(ctx, n, g0.sr.val)), g.t0.sec)
+                    c.raise_if(V.lt(TAU_T, _absv(gap)), REJECT, "not contiguous in time")
+            n = V.add(n, g.N)
+        ax = 0
+    else:
+        for g in gs:
+            if g.t0 is not None:
+                if ref is None:
+                    ref = g.t0.sec
+                else:
+                    c.raise_if(V.lt(TAU_T, _absv(V.sub(ref, g.t0.sec))), REJECT, "different start times")
+        ax = 1 if freq_axis else axis
+        if not isinstance(ax, int) or isinstance(ax, bool):
+            raise PyExc(REJECT, "bad axis")
+    attrs = g0.attrs()
+    attrs["start_time"] = None if ref is None else STime(V.simp(ref), "isot", 9)
+    if radio:
+        for g in gs:
+            c.raise_if(V.Not(u_isclose(g0.bw.val, g.bw.val)), REJECT, "chan_bw differ")
+        if freq_axis:
+            for x, y in zip(gs, gs[1:]):
+                d = V.sub(label(c, y, 0), label(c, x, V.sub(x.nchan, 1)))
+                c.raise_if(V.Not(u_isclose(d, g0.bw.val)), REJECT, "not contiguous in frequency")
+            f0, f1 = label(c, gs[0], 0), label(c, gs[-1], V.sub(gs[-1].nchan, 1))
+        else:
+            for g in gs[1:]:
+                c.raise_if(V.ne(g.nchan, g0.nchan), REJECT, "channel counts differ")
+                with_bad = ctx.fresh("badchan", "int")
+                # some channel label differs by more than the tolerance -> rejected
+                bad = V.And(V.le(0, with_bad), V.lt(with_bad, g0.nchan),
+                            V.Not(u_isclose(label(c, g0, with_bad), label(c, g, with_bad))))
+                allclose = ctx.fresh("labels_close", "bool")
+                ctx.assume(z3.Implies(z3.Not(allclose), V.Z(bad)) if is_sym(bad) else True, why="spec: witness of a differing label")
+                i_any = z3.Int(f"anychan!{next(ctx.counter)}")
+                ctx.assume(z3.Implies(allclose, z3.ForAll([i_any], z3.Implies(z3.And(i_any >= 0, i_any < V.Z(g0.nchan)),
+                           V.Z(u_isclose(label(c, g0, i_any), label(c, g, i_any)))))), why="spec: all labels close")
+                c.raise_if(z3.Not(allclose), REJECT, "different frequency channels")
+            f0, f1 = label(c, g0, 0), label(c, g0, V.sub(g0.nchan, 1))
+        attrs["center_freq"] = Qty(V.div(ctx, V.add(f0, f1), 2), FREQ_DIM, g0.cf.unit)
+        attrs["freq_align"] = "center"
+    arrs = [g.data for g in gs]
+    nd = arrs[0].ndim
+    if any(a.ndim != nd for a in arrs) or not (-nd <= ax < nd):
+        raise PyExc(REJECT, "dimension mismatch")
+    axn = ax % nd
+    for a in arrs[1:]:
+        for k in range(nd):
+            if k != axn:
+                c.raise_if(V.ne(a.shape[k], arrs[0].shape[k]), REJECT, "shape mismatch off the concatenation axis")
+    data = A.concatenate(ctx, arrs, axn)
+    return construct(c, cls, data, attrs)
+
+
+def inst_concat():
+    out = []
+    cfgs = []
+    for cls in ("Signal", "RadioSignal", "BasebandSignal"):
+        axes = [0, "time", 1] if cls == "Signal" else [0, 1, "freq", 2]
+        for axis in axes:
+            for npieces, t0pat in ((1, "1"), (2, "11"), (2, "00"), (2, "01"), (2, "10"), (3, "111"), (3, "101"), (3, "011")):
+                if axis not in (0,) and npieces == 3 and t0pat != "111":
+                    continue
+                cfgs.append((cls, axis, npieces, t0pat))
+    for cls, axis, npieces, t0pat in cfgs:
+        def build(interp, ctx, nm, cls=cls, axis=axis, npieces=npieces, t0pat=t0pat):
+            extra = 1
+            sigs = [mk_signal(interp, ctx, f"p{k}", cls, extra_rank=extra, has_t0=(t0pat[k] == "1"), align=("bottom", "center", "top")[k % 3], nm=nm)
+                    for k in range(npieces)]
+            return (sigs,), {"axis": axis}
+        out.append(Instance(f"{cls},axis={axis},pieces={npieces},t0={t0pat}", build))
+    # rejected argument kinds
+    def build(interp, ctx, nm):
+        return ([],), {}
+    out.append(Instance("empty", build))
+    def build(interp, ctx, nm):
+        return ([mk_signal(interp, ctx, "p0", "RadioSignal", nm=nm), mk_signal(interp, ctx, "p1", "IntensitySignal", nm=nm)],), {}
+    out.append(Instance("mixed-types", build))
+    def build(interp, ctx, nm):
+        return ([mk_signal(interp, ctx, "p0", "Signal", extra_rank=1, nm=nm), mk_signal(interp, ctx, "p1", "Signal", extra_rank=1, nm=nm)],), {"axis": "freq"}
+    out.append(Instance("freq-axis-non-radio", build))
+    def build(interp, ctx, nm):
+        return ([sym_array("notsig", (3,), "float64", nm=nm)],), {}
+    out.append(Instance("not-a-signal", build))
+    return out
+
+
+_cc = Contract("pulsarbat.transforms.transforms.concatenate", spec_concatenate, inst_concat(), props={"C10": None})
+CONTRACTS.append(_cc)
+
+
+# --------------------------------------------------------------------------- C10 lemmas: split then concatenate
+from contracts.core import M
+
+
+def lemma(name, body, spec, instances, props, real=None):
+    ct = Contract(f"lemma.{name}", spec, instances, props=props, body=body)
+    ct.real_call = real
+    CONTRACTS.append(ct)
+    return ct
+
+
+def _call_concat(interp, ctx, pieces, axis):
+    fv = interp.funcval_for("pulsarbat.transforms.transforms.concatenate")
+    return interp.call_function(fv, (pieces,), {"axis": axis}, ctx)
+
+
+def _split_time_body(drop):
+    def body(interp, ctx, a, k):
+        z, c1, c2 = a
+        pieces = [M(interp, ctx, z, "__getitem__", SSlice(None, c1, None)),
+                  M(interp, ctx, z, "__getitem__", SSlice(c1, c2, None)),
+                  M(interp, ctx, z, "__getitem__", SSlice(c2, None, None))]
+        for j in drop:     # pieces lacking a start time
+            pieces[j] = interp.call(interp.get_attr(ClassRefOf(pieces[j]), "like", ctx), (pieces[j],), {"start_time": None}, ctx)
+        return _call_concat(interp, ctx, pieces, 0)
+    return body
+
+
+def ClassRefOf(obj):
+    from pyvc.interp import ClassRef
+    return ClassRef(obj.cls)
+
+
+def _split_time_real(drop):
+    def real(pb, a, k):
+        z, c1, c2 = a
+        pieces = [z[:c1], z[c1:c2], z[c2:]]
+        for j in drop:
+            pieces[j] = type(z).like(pieces[j], start_time=None)
+        return pb.concatenate(pieces, axis=0)
+    return real
+
+
+def _spec_identity(keep_t0):
+    def spec(c, z, c1, c2):
+        """splitting at 0 <= c1 <= c2 <= N and concatenating reproduces data, start, rate, labels."""
+        g = c.view(z)
+        attrs = g.attrs()
+        if not keep_t0:
+            attrs["start_time"] = None
+        return construct(c, g.cls, g.data, attrs)
+    return spec
+
+
+def inst_split(classes, axis_len_name="z_N", freq=False):
+    out = []
+    for cls in classes:
+        for al in (("center",) if not freq else ("bottom", "center", "top")):
+            def build(interp, ctx, nm, cls=cls, al=al):
+                z = mk_signal(interp, ctx, "z", cls, extra_rank=0 if cls != "Signal" else 1, align=al, nm=nm)
+                L = z.ghost["data"].shape[1 if freq else 0]
+                c1, c2 = nm.int("c1"), nm.int("c2")
+                ctx.assume(V.And(V.le(0 if not freq else 1, c1), V.le(c1, c2) if not freq else V.lt(c1, c2), V.le(c2, L) if not freq else V.lt(c2, L)), why="cut points")
+                return (z, c1, c2), {}
+            out.append(Instance(f"{cls},align={al}", build))
+    return out
+
+
+lemma("C10.split-concat-time", _split_time_body(()), _spec_identity(True), inst_split(["Signal", "RadioSignal", "BasebandSignal"]), ("C10",), real=_split_time_real(()))
+lemma("C10.split-concat-time.middle-start-missing", _split_time_body((1,)), _spec_identity(True), inst_split(["Signal", "BasebandSignal"]), ("C10",), real=_split_time_real((1,)))
+lemma("C10.split-concat-time.no-starts", _split_time_body((0, 1, 2)), _spec_identity(False), inst_split(["RadioSignal"]), ("C10",), real=_split_time_real((0, 1, 2)))
+
+
+def _split_freq_body(interp, ctx, a, k):
+    z, c1, c2 = a
+    full = SSlice(None, None, None)
+    pieces = [M(interp, ctx, z, "__getitem__", (full, SSlice(None, c1, None))),
+              M(interp, ctx, z, "__getitem__", (full, SSlice(c1, c2, None))),
+              M(interp, ctx, z, "__getitem__", (full, SSlice(c2, None, None)))]
+    return _call_concat(interp, ctx, pieces, "freq")
+
+
+lemma("C10.split-concat-freq", _split_freq_body, _spec_identity(True), inst_split(["RadioSignal", "BasebandSignal", "FullStokesSignal"], freq=True), ("C10",),
+      real=lambda pb, a, k: pb.concatenate([a[0][:, :a[1]], a[0][:, a[1]:a[2]], a[0][:, a[2]:]], axis="freq"))
+
+
+# a piece displaced by at least one sample (or one channel) is rejected
+def _shifted_time_body(interp, ctx, a, k):
+    z, c1, delta = a
+    p0 = M(interp, ctx, z, "__getitem__", SSlice(None, c1, None))
+    p1 = M(interp, ctx, z, "__getitem__", SSlice(c1, None, None))
+    t1 = interp.get_attr(p1, "start_time", ctx)
+    p1 = interp.call(interp.get_attr(ClassRefOf(p1), "like", ctx), (p1,), {"start_time": STime(V.add(t1.sec, delta))}, ctx)
+    return _call_concat(interp, ctx, [p0, p1], 0)
+
+
+def _spec_reject(c, z, c1, delta):
+    raise PyExc(REJECT, "displaced piece must be rejected")
+
+
+def inst_shifted():
+    out = []
+    for cls in ("Signal", "BasebandSignal"):
+        def build(interp, ctx, nm, cls=cls):
+            z = mk_signal(interp, ctx, "z", cls, extra_rank=0 if cls != "Signal" else 1, nm=nm)
+            sr = z.ghost["sr"].val
+            c1 = nm.int("c1", 2)
+            delta = nm.real("delta", 1)
+            ctx.assume(V.And(V.le(0, c1), V.le(c1, z.ghost["data"].shape[0])), why="cut point")
+            # displaced by at least one sample either way; one sample is longer than Time's resolution (sr < 26 GHz)
+            ctx.assume(V.And(V.le(1, V.mul(_absv(delta), sr)), V.lt(V.mul(TAU_T, sr), 1)), why="perturbation of at least one sample")
+            return (z, c1, delta), {}
+        out.append(Instance(cls, build))
+    return out
+
+
+def _shifted_real(pb, a, k):
+    import astropy.units as u
+    z, c1, delta = a
+    p0, p1 = z[:c1], z[c1:]
+    p1 = type(z).like(p1, start_time=p1.start_time + float(delta) * u.s)
+    return pb.concatenate([p0, p1], axis=0)
+
+
+lemma("C10.displaced-piece-rejected", _shifted_time_body, _spec_reject, inst_shifted(), ("C10",), real=_shifted_real)
